@@ -392,7 +392,7 @@ Proof.
     + cbn [map jn app items_toks item_toks length] in Hf |- *.
       cbn [scan]. destruct k as [|k]; [lia|]. rewrite fc_func_loop_rparen.
       rewrite Hus. cbn [map concat_str]. rewrite <- !app_assoc. reflexivity.
-    + inversion HF as [|? ? Hp HFps]; subst. cbn [all_P] in Hps. destruct Hps as [Hcp Hcps].
+    + pose proof (Forall_inv HF) as Hp. pose proof (Forall_inv_tail HF) as HFps. cbn [all_P] in Hps. destruct Hps as [Hcp Hcps].
       cbn [map] in Hf |- *. rewrite jn_cons, <- app_assoc in Hf |- *.
       fold (args_tail ps) in Hf |- *.
       rewrite items_toks_app in Hf |- *. rewrite app_length in Hf.
@@ -418,7 +418,7 @@ Proof.
       cbn [items_toks item_toks app length] in Hf |- *.
       cbn [scan]. destruct k as [|k]; [lia|]. rewrite log_loop_close.
       rewrite Hus, open_s_ch, close_s_ch. cbn [map concat_str]. rewrite <- !app_assoc. reflexivity.
-    + inversion HF as [|? ? Hx HFxs]; subst. cbn [all_P] in Hxs. destruct Hxs as [Hcx Hcxs].
+    + pose proof (Forall_inv HF) as Hx. pose proof (Forall_inv_tail HF) as HFxs. cbn [all_P] in Hxs. destruct Hxs as [Hcx Hcxs].
       cbn [map] in Hf |- *. rewrite jn_cons, <- app_assoc in Hf |- *.
       change (map (fun x0 : operand => W ws nl ++ its_operand ws (S d) x0) xs)
         with (map (opnd_items ws d) xs) in Hf |- *.
